@@ -3,7 +3,103 @@
 K-mock: ExpandMsgXmd<H> / ExpandMsgXof<H> / hash_to_field<T,X> instantiated with mock hashes / recorders and compared, for all
 message and tag bytes at a grid of lengths, with an independent transcription of RFC 9380 5.3.1 / 5.3.2; the 255-block limit;
 K-bits: Fq::from_okm, Fr::from_okm, Fq2::from_ro for all 64/48/128-byte blocks (Montgomery multiplication recorded, not computed)."""
+import hashlib
+from mirsym import load, ref
 from . import kani_common as K
+
+
+# ---- independent transcription of RFC 9380 section 5.2 / 5.3 over hashlib (supplementary native differential: sampling on a boundary
+#      grid through the REAL SHA-2 / SHAKE instantiations, which the Kani mocks do not reach; not the deciding method)
+def rfc_xmd(hname, msg, dst, n):
+    H = lambda d: hashlib.new(hname, d).digest()
+    b, sblk = hashlib.new(hname).digest_size, hashlib.new(hname).block_size
+    ell = -(-n // b)
+    if ell > 255 or n > 65535 or len(dst) > 255:
+        return None
+    dp = dst + bytes([len(dst)])
+    b0 = H(bytes(sblk) + msg + n.to_bytes(2, 'big') + b'\0' + dp)
+    bi = H(b0 + b'\1' + dp)
+    out = bi
+    for i in range(2, ell + 1):
+        bi = H(bytes(x ^ y for x, y in zip(b0, bi)) + bytes([i]) + dp)
+        out += bi
+    return out[:n]
+
+
+def rfc_xof(hname, msg, dst, n):
+    return hashlib.new(hname, msg + n.to_bytes(2, 'big') + dst + bytes([len(dst)])).digest(n)
+
+
+def _bytes(tag, n):
+    out = b''
+    i = 0
+    while len(out) < n:
+        out += hashlib.sha256(b'%s-%d' % (tag.encode(), i)).digest()
+        i += 1
+    return out[:n]
+
+
+def native_differential(ctx):
+    chk = ctx.chk
+    variants = [('xmd256', 'sha256', rfc_xmd), ('xmd512', 'sha512', rfc_xmd), ('xof128', 'shake_128', rfc_xof), ('xof256', 'shake_256', rfc_xof)]
+    msg_lens = [0, 1, 55, 56, 63, 64, 65, 111, 112, 128, 200]
+    dst_lens = [0, 1, 43, 254, 255]
+    cases = []
+    for v, hname, f in variants:
+        b = hashlib.new(hname).digest_size if 'xmd' in v else 32
+        out_lens = [0, 1, b - 1, b, b + 1, 2 * b, 2 * b + 1, 128, 255 * b] if 'xmd' in v else [0, 1, 31, 32, 33, 128, 255, 256, 257, 65535]
+        if 'xmd' in v:
+            out_lens += [255 * b + 1, 256 * b - 1, 256 * b]      # beyond 255 blocks: must abort
+        if ctx.tier == 'quick':
+            grid = [(ml, dl, ol) for ml in msg_lens for dl in dst_lens for ol in out_lens if (ml in (0, 64) or dl in (0, 255) and ml == 1 or ol in (b + 1,) and dl == 43)]
+        else:
+            grid = [(ml, dl, ol) for ml in msg_lens for dl in dst_lens for ol in out_lens]
+        for ml, dl, ol in grid:
+            if ol > 65535:
+                continue
+            cases.append((v, hname, f, _bytes('m%d' % ml, ml), _bytes('d%d' % dl, dl), ol))
+    cmds = ['expand %s %s %s %d' % (v, m.hex() or '-', d.hex() or '-', ol) for v, _, _, m, d, ol in cases]
+    # hash_to_field: element count 0..3, the three element types, both expander families
+    hcases = []
+    for ty, L, mod, m_ in (('fq', 64, ref.Q, 1), ('fr', 48, ref.R_ORDER, 1), ('fq2', 64, ref.Q, 2)):
+        for v, hname, f in (variants[0], variants[2]):
+            for cnt in (0, 1, 2, 3):
+                for ml, dl in ((0, 0), (3, 255), (64, 43)):
+                    hcases.append((ty, L, mod, m_, v, hname, f, _bytes('m%d' % ml, ml), _bytes('d%d' % dl, dl), cnt))
+    hcmds = ['h2f %s %s %s %s %d' % (ty, v, m.hex() or '-', d.hex() or '-', cnt) for ty, L, mod, m_, v, hname, f, m, d, cnt in hcases]
+    nbad = 0
+    for profile in (('release',) if ctx.tier == 'quick' else ('dev', 'release')):
+        n = load.Native(profile)
+        try:
+            outs = n.run(cmds + hcmds)
+        finally:
+            n.close()
+        for (v, hname, f, m, d, ol), o in zip(cases, outs[:len(cases)]):
+            want = f(hname, m, d, ol)
+            wtxt = 'PANIC' if want is None else ('%d %s' % (ol, want.hex())).strip()
+            if o.strip() != wtxt and nbad < 5:
+                nbad += 1
+                ctx.violation('expand-native:%s:%s' % (v, 'abort' if want is None else 'dst%d' % len(d) if len(d) in (0, 255) else 'bytes'),
+                              'expand_message (%s) differs from RFC 9380 5.3 (hashlib transcription) for |msg|=%d |dst|=%d len=%d in the %s build: got %s, want %s'
+                              % (v, len(m), len(d), ol, profile, o[:60], wtxt[:60]),
+                              {'cmd': 'expand %s %s %s %d' % (v, m.hex() or '-', d.hex() or '-', ol), 'expected': wtxt, 'got': o.strip(), 'profile': profile})
+        for (ty, L, mod, m_, v, hname, f, m, d, cnt), o in zip(hcases, outs[len(cases):]):
+            okm = f(hname, m, d, cnt * m_ * L)
+            elems = [int.from_bytes(okm[i * L:(i + 1) * L], 'big') % mod for i in range(cnt * m_)]
+            width = 64 if ty == 'fr' else 96
+            wtxt = ('n=%d ' % cnt + ' '.join('%0*x' % (width, e) for e in elems)).strip()
+            if o.strip() != wtxt and nbad < 5:
+                nbad += 1
+                ctx.violation('h2f-native:%s:%s' % (ty, v), 'hash_to_field::<%s, %s> differs from RFC 9380 5.2 for |msg|=%d |dst|=%d count=%d (%s build)' % (ty, v, len(m), len(d), cnt, profile),
+                              {'cmd': 'h2f %s %s %s %s %d' % (ty, v, m.hex() or '-', d.hex() or '-', cnt), 'expected': wtxt, 'got': o.strip(), 'profile': profile})
+    chk.ground('native differential: expand_message_xmd<SHA-256|SHA-512>, expand_message_xof<SHAKE128|256> and hash_to_field<Fq|Fr|Fq2> agree with an independent '
+               'hashlib transcription of RFC 9380 5.2/5.3 on %d + %d boundary cases (incl. |dst| = 0, 254, 255; block-aligned messages; 255 blocks; abort beyond)' % (len(cases), len(hcases)),
+               nbad == 0, '%d disagreements' % nbad)
+    if nbad:
+        chk.ground_handled = getattr(chk, 'ground_handled', {})
+        chk.ground_handled[chk.grounds[-1][0]] = True
+    chk.extra['native_differential'] = {'expand_cases': len(cases), 'hash_to_field_cases': len(hcases), 'profiles': 'release' if ctx.tier == 'quick' else 'dev+release',
+                                        'role': 'supplementary (sampling on a boundary grid); the deciding method is the Kani run'}
 
 
 def run(ctx):
@@ -12,6 +108,7 @@ def run(ctx):
     ctx.explanation = 'Kani/CBMC bounded model checking of the real generic expand_message / hash_to_field / from_okm code over mocks, all bytes symbolic, lengths from a grid'
     K.run_harnesses(ctx, 'c13')
     K.report_failures(ctx, 'expand-message')
+    native_differential(ctx)
     chk.assumptions += ['mock hash: 16-bit position-sensitive rolling state (a mutated composition has to agree with the RFC transcription for every symbolic byte to escape); '
                         'SHA-256/512 and SHAKE internals, and vec_result of real XOF readers, are not modelled',
                         'from_okm: Fq/Fr::mul_assign recorded by a stub (the literal multipliers F_2_256, F_2_192 equal 2^256 R, 2^192 R: C08 ground facts; Montgomery product: C08 S-lia)']
